@@ -78,6 +78,58 @@ def subPipeline (hs : List H) (skip : List String) : List H :=
 def queryerSub (hs : List H) : List H := subPipeline hs (autoSkip hs)
 def prefetchSub (hs : List H) : List H := subPipeline hs (autoSkip hs ++ ["cache"])
 
+/-! ### The chain pools (`Pipeline.NewChain` / `Pipeline.PutChain`)
+
+Every pipeline (the root one clients are served on, the internal and prefetch
+sub-pipelines) owns a `sync.Pool` of chains. A chain carries the handler list it
+was bound to when the pool constructed it; `NewChain` does **not** rebind a
+chain it finds in the pool. Pipelines are numbered; `bound` is the number of the
+pipeline whose handlers the chain runs. -/
+
+structure Pools where
+  pools : List (Nat × List Nat)   -- pipeline ↦ chains at rest, each by the pipeline it is bound to
+  out : List (Nat × Nat)          -- chains in use: (pipeline it was drawn from, pipeline it is bound to)
+deriving DecidableEq, Repr
+
+def Pools.empty : Pools := { pools := [], out := [] }
+
+def poolOf (ps : List (Nat × List Nat)) (p : Nat) : List Nat :=
+  match ps.find? (·.1 == p) with
+  | some e => e.2
+  | none => []
+
+def setPool (ps : List (Nat × List Nat)) (p : Nat) (l : List Nat) : List (Nat × List Nat) :=
+  (p, l) :: ps.filter (fun e => !(e.1 == p))
+
+inductive PoolOp where
+  | acquire (p : Nat)             -- `p.NewChain()`
+  | release (i : Nat)             -- `p.PutChain(ch)` by the holder of the i-th chain in use, to the pipeline it drew from
+  | releaseTo (i q : Nat)         -- `q.PutChain(ch)`: to ANOTHER pipeline's pool (what the code must never do)
+deriving DecidableEq, Repr
+
+/-- One pool operation. `acquire` on an empty pool runs the pool's constructor:
+a chain over the pipeline's own handlers. -/
+def Pools.step (s : Pools) : PoolOp → Pools
+  | .acquire p =>
+    match poolOf s.pools p with
+    | b :: rest => { pools := setPool s.pools p rest, out := s.out ++ [(p, b)] }
+    | [] => { s with out := s.out ++ [(p, p)] }
+  | .release i =>
+    match s.out[i]? with
+    | some (p, b) => { pools := setPool s.pools p (b :: poolOf s.pools p), out := s.out.eraseIdx i }
+    | none => s
+  | .releaseTo i q =>
+    match s.out[i]? with
+    | some (_, b) => { pools := setPool s.pools q (b :: poolOf s.pools q), out := s.out.eraseIdx i }
+    | none => s
+
+def Pools.run (s : Pools) (ops : List PoolOp) : Pools := ops.foldl Pools.step s
+
+/-- The discipline of the code: no chain goes to a pool other than its own. -/
+def paired : PoolOp → Bool
+  | .releaseTo _ _ => false
+  | _ => true
+
 /-! ### Peer identity (`responseWriter.Reset`) -/
 
 inductive AddrKind where
